@@ -410,6 +410,11 @@ def call_builtin_class(ip, f, args, kw):
         if isinstance(x, SOpt):
             x = ip.unopt(x, 'int()')
         if isinstance(x, SStr):
+            if x.text is not None:
+                try:
+                    return int(x.text)
+                except ValueError:
+                    raise PyRaise(ExcVal(ValueError, tag='int(str)'))
             if not st.decide(is_int_str(x.t), 'int-parsable'):
                 raise PyRaise(ExcVal(ValueError, tag='int(str)'))
             return str_to_int(x.t)
